@@ -155,6 +155,7 @@ def register(db):
         ],
         raises={"ParserError": "(self.config.fail_on_unknown_properties and len(data) > 0) or called('ParserConfig.class_factory') == 1",
                 "XmlContextError": True},
-        loops=[Loop(invariants=["implies(self.config.fail_on_unknown_properties, _i == 0)"], header="data.items()")],
+        loops=[Loop(invariants=["implies(self.config.fail_on_unknown_properties, _i == 0)", "len(params) == 0"],
+                    header="data.items()", modifies=["params"], vars={"params": "dict[str,u:Any]"})],
         properties=P + ["C15"],
     ))
